@@ -372,6 +372,35 @@ class Gen:
                 fn = func(name, St(sid), [(a, St(sid)), (k, T("int"))], s_block(body))
                 fn["_sid"] = sid
                 self.funcs.append(fn)
+        # functions taking pointers: to a struct (member update through the pointer) and to array elements (loop over p[i])
+        self.pcalls = []
+        for sid in range(1, len(self.structs) + 1):
+            if r.random() < 0.6:
+                name, p, k = self.fresh("fp_s"), self.fresh("q"), self.fresh("q")
+                flds = self.structs[sid - 1]["fields"]
+                f1, f2 = r.choice(flds), r.choice(flds)
+                body = [s_asg(r.choice(["^=", "|=", "="]), mem(deref(var(p)), f1["n"]), bin_("+", cast(T("uint"), var(k)), lit("int", r.randrange(5)))),
+                        s_obs(mem(deref(var(p)), f2["n"])), s_ret(cast(T("int"), mem(deref(var(p)), f1["n"])))]
+                fn = func(name, T("int"), [(p, P(St(sid))), (k, T("int"))], s_block(body))
+                fn["_sid"] = -2
+                self.funcs.append(fn)
+                tgt = [n_ for n_, s_ in g["structs"].items() if s_ == sid]
+                if tgt:
+                    self.pcalls.append((name, [addr(var(r.choice(tgt))), self.lit_for("int", small=True)]))
+        for a, (t, ln) in list(g["arrs"].items()):
+            if r.random() < 0.6:
+                name, p, n_, i, acc = self.fresh("fp_a"), self.fresh("q"), self.fresh("q"), self.fresh("i"), self.fresh("acc")
+                body = [s_decl(acc, T("ulong"), i_e(lit("ulong", 0))),
+                        s_for(s_decl(i, T("int"), i_e(lit("int", 0))), bin_("<", var(i), var(n_)), s_expr(incdec(var(i))),
+                              s_block([s_asg("=", var(acc), bin_("+", bin_("*", var(acc), lit("ulong", 3)), cast(T("ulong"), cast(T("llong"), idx(var(p), var(i)))))),
+                                       s_asg(r.choice(["^=", "+=", "="]), idx(var(p), var(i)), cast(T(t), bin_("&", var(i), lit("int", 3))))] if t in UINTS else
+                                      [s_asg("=", var(acc), bin_("+", bin_("*", var(acc), lit("ulong", 3)), cast(T("ulong"), cast(T("llong"), idx(var(p), var(i))))))])),
+                        s_ret(var(acc))]
+                fn = func(name, T("ulong"), [(p, P(T(t))), (n_, T("int"))], s_block(body))
+                fn["_sid"] = -2
+                self.funcs.append(fn)
+                off = r.randrange(ln)
+                self.pcalls.append((name, [addr(idx(var(a), lit("int", off))), lit("int", ln - off)]))
         self.fps = []
         plain = [g_ for g_ in self.funcs if "_sid" not in g_]
         if plain and r.random() < 0.7:
@@ -432,6 +461,9 @@ class Gen:
                      s_for(s_decl(self.fresh("i"), T("int"), i_e(lit("int", 0))), lit("int", 1), None,
                            s_block([s_obs(lit("int", 78)), s_if(lit("int", 1), s_goto(lc))])), s_label(lc)] + rest[cut2:])
             body = decls + [s_decl(cnt, T("uint"), i_e(lit("uint", r.randrange(1, 4))))] + rest
+        for name, args in self.pcalls:
+            u = self.fresh("u")
+            body += [s_decl(u, T("ulong"), i_e(lit("ulong", 0))), s_call(name, args, var(u)), s_obs(var(u))]
         for fpn, sig, same in self.fps:
             for _ in range(r.randrange(1, 3)):
                 lv = self.int_lvalue(sc)
